@@ -424,7 +424,7 @@ func replayNames(args []string) error {
 		return err
 	}
 	hist := append(gather(acc), gather(rej)...)
-	c.historyNames(hist, vh.Rand(261))
+	c.historyNames(hist, vh.Rand(261), false)
 	return res.Close(map[string]any{"vectors": nvec.Load(), "concretisations": nconc.Load(), "evaluations": c.evals.Load(),
 		"distinct_nontrivial": distinct(ws), "accepted_by_grammar": nvalid.Load(), "validate_vs_grammar_differences": specDiff.Load(), "history_inputs": len(hist)})
 }
